@@ -24,7 +24,7 @@ import (
 // has already been partly consumed and are not covered.
 func RunOrder(conf core.Config, scope core.Scope) *core.Result {
 	res := core.NewResult("DECODE")
-	res.Rules = append(res.Rules, "DECODE.order: in Unmarshal*/GobDecode methods no return of a validation error (package-level error variable, errors.New, fmt.Errorf) is reachable after the receiver was written")
+	res.Rules = append(res.Rules, "DECODE.order: in Unmarshal*/GobDecode methods, and in every other exported pointer-receiver method whose only result is an error, no return of a validation error (package-level error variable, errors.New, fmt.Errorf) is reachable after the receiver was written")
 	res.Configs = append(res.Configs, conf.String())
 	pkgs, err := core.Load(conf, scope.Patterns...)
 	if err != nil {
@@ -40,8 +40,27 @@ func RunOrder(conf core.Config, scope core.Scope) *core.Result {
 			}
 			for _, d := range file.Decls {
 				fd, ok := d.(*ast.FuncDecl)
-				if !ok || fd.Body == nil || fd.Recv == nil || !isDecoderName(fd.Name.Name) || len(fd.Recv.List[0].Names) != 1 {
+				if !ok || fd.Body == nil || fd.Recv == nil || len(fd.Recv.List[0].Names) != 1 {
 					continue
+				}
+				// decoders, and any other pointer-receiver method whose only
+				// result is an error (HyperLogLog.Union): "rejected, receiver
+				// unchanged" is the same contract
+				if !isDecoderName(fd.Name.Name) {
+					pp := pkg.PkgPath
+					if !(strings.HasSuffix(pp, "/stat/card") || strings.HasSuffix(pp, "/mathext/prng") || strings.Contains(pp, "/graph/encoding/") || strings.Contains(pp, "/graph/formats/")) {
+						continue
+					}
+					rl := fd.Type.Results
+					if rl == nil || len(rl.List) != 1 || len(rl.List[0].Names) > 1 {
+						continue
+					}
+					if tv, ok := info.Types[rl.List[0].Type]; !ok || !types.Identical(tv.Type, errType) {
+						continue
+					}
+					if !ast.IsExported(fd.Name.Name) {
+						continue
+					}
 				}
 				recv := info.Defs[fd.Recv.List[0].Names[0]]
 				if recv == nil {
